@@ -62,7 +62,14 @@ let droppable ev =
 
 let register (reg : string -> (Sx.t list -> Sx.t) -> unit) =
   reg "c02_replay" (fun a -> match a with
-    | [mp; threads; bodies; tids; locs; tbls; itabs] ->
+    | mp :: threads :: bodies :: tids :: locs :: tbls :: itabs :: init ->
+        (* optional 8th argument: the initial state [n0; [[loc; z]; ...]] (children that exist, with their values, and
+           static cells that are not zero before the threads start); the theorems quantify over every h0 / tb0 / n0 *)
+        let (n0, heap0) = (match init with
+            | [] -> (N0, [])
+            | [L [n0; ents]] -> (get_n n0, get_list (fun e -> match e with L [x; z] -> (get_loc x, get_z z) | _ -> bad "init heap") ents)
+            | _ -> bad "c02_replay init") in
+        let h0 x = (try List.assoc x heap0 with Not_found -> Z0) in
         let mp = get_bool mp in
         let progs = get_list (fun p -> compile_thread mp (get_list get_op p)) threads in
         let btab = get_list (fun b -> match b with
@@ -73,7 +80,7 @@ let register (reg : string -> (Sx.t list -> Sx.t) -> unit) =
         Hashtbl.reset touched;
         let itab = get_list (fun x -> match x with L [tb; ents] -> (get_n tb, get_list (get_pair get_n get_n) ents) | _ -> bad "itab") itabs in
         let tab0 tb = (try List.assoc tb itab with Not_found -> []) in
-        let c = ref (init_config (fun _ -> Z0) tab0 N0 progs) in
+        let c = ref (init_config h0 tab0 n0 progs) in
         let out = ref [] in
         let stuck = ref [] in
         (* run thread t until it emits one visible event; silent steps and dropped reads are passed over *)
